@@ -94,6 +94,24 @@ func c03GenIndexed(i int, r *Rand, tier string) interface{} {
 	for k := 0; k < 60; k++ {
 		n := 4 + r.Intn(5)
 		var segs []string
+		if r.Chance(1, 8) {
+			// a long path: 14-40 names down, more ".." than names up, then a sentinel's name
+			// (fixed-size segment stacks and depth limits live past 16 and 32)
+			down := r.Pick(14, 15, 16, 17, 18, 31, 32, 33, 40)
+			for j := 0; j < down; j++ {
+				segs = append(segs, []string{"s", "d", "view", "n"}[r.Intn(4)])
+			}
+			for j := 0; j < down+1+r.Intn(3); j++ {
+				segs = append(segs, "..")
+			}
+			segs = append(segs, []string{"s", "viewOUT", "d/s"}[r.Intn(3)])
+			p := strings.Join(segs, "/")
+			if r.Bool() {
+				p = "/" + p
+			}
+			in.Paths = append(in.Paths, p)
+			continue
+		}
 		for j := 0; j < n; j++ {
 			if r.Chance(1, 6) {
 				// a backslash is an ordinary character of a name here; a path cleaner that treats
